@@ -321,6 +321,22 @@ def helpers(chk):
             bad.append(('record', 'PositionAndLook%s == PositionAndLook%s is %s; field-wise comparison gives %s' % (f, g, x == y, f == g)))
         if x == y and hash(x) != hash(y):
             bad.append(('record', 'PositionAndLook%r and PositionAndLook%r compare equal but hash differently' % (f, g)))
+    # values that are not equal to themselves (NaN), held as ONE object by both records or as two objects:
+    # the comparison is field-wise with ==, never by identity of the field values
+    nan1, nan2 = float('nan'), float('nan')
+    nanpool = [nan1, nan1, nan2, 0.0, 1.5, float('inf'), None]
+    for _ in range(200):
+        f = [rng.choice(nanpool) for _ in range(5)]
+        g = [v if rng.random() < 0.8 else rng.choice(nanpool) for v in f]
+        x = PositionAndLook(x=f[0], y=f[1], z=f[2], yaw=f[3], pitch=f[4])
+        y = PositionAndLook(x=g[0], y=g[1], z=g[2], yaw=g[3], pitch=g[4])
+        fieldwise = all(a == b for a, b in zip(f, g))
+        chk.count('record-nan', [repr(f), repr(g), [a is b for a, b in zip(f, g)]], True)
+        for l, r, what in ((x, y, 'two records'), (x, x, 'a record and itself')):
+            exp = fieldwise if l is not r else all(a == a for a in f)
+            if (l == r) != exp or (l != r) == (l == r):
+                bad.append(('record', 'PositionAndLook%r == PositionAndLook%r (%s; same field objects: %s) is %s; field-wise == gives %s'
+                            % (f, g if l is not r else f, what, [a is b for a, b in zip(f, g)], l == r, exp)))
     # record types that extend record types (in either order of first use): every slot of the whole hierarchy counts
     for order in ('parent-first', 'child-first'):
         class Base(MutableRecord):
